@@ -171,6 +171,7 @@ type Collector struct {
 	start        time.Time
 	maxSamples   int
 	bulkDistinct int64
+	longSamples  int
 }
 
 type FailureRec struct {
@@ -207,8 +208,15 @@ func (c *Collector) Record(caseJSON []byte, o Outcome) {
 		h := Hash(caseJSON)
 		if _, ok := c.distinct[h]; !ok {
 			c.distinct[h] = struct{}{}
-			if len(c.Samples) < c.maxSamples && len(caseJSON) < 4000 {
-				c.Samples = append(c.Samples, append(json.RawMessage(nil), caseJSON...))
+			if len(c.Samples) < c.maxSamples {
+				if len(caseJSON) < 4000 {
+					c.Samples = append(c.Samples, append(json.RawMessage(nil), caseJSON...))
+				} else if c.longSamples < 2 {
+					// long cases: keep the beginning as text so that a reader still sees what they look like
+					c.longSamples++
+					t, _ := json.Marshal(map[string]any{"truncated_case_json": string(caseJSON[:1500]) + " ...", "full_length": len(caseJSON)})
+					c.Samples = append(c.Samples, t)
+				}
 			}
 		}
 	}
